@@ -69,3 +69,8 @@ add("C01", "model_checking", "vh",
     "small-scope exhaustive program enumeration: real run_program against a reference interpreter (per-case conformance)",
     "Every program of six grammars (operator applications over all classic / unassigned / multi-byte unknown opcodes, raw ((op) . args) forms with improper lists, all ordered operator compositions, every small tree interpreted as a program against every small environment, recursive and allocation-heavy families for every parameter, softfork guards with exact/off-by-k/huge/negative/non-canonical costs) is evaluated by the real interpreter and by RefVM; results, costs and success under budgets C, C-1, C+1, C/2 must agree. Consensus changes are named adapters with use counts in the evidence.",
     "RefVM (harness/src/refvm.rs) is a transcription of the historical Python interpreter (the package itself is not installable offline); it is validated at every start-up against the repository's 1.2k v1 operator vectors and a vector it gets wrong aborts the check as a machinery error. Programs larger than the scopes are not covered.")
+
+add("C02", "exploration", "vh",
+    "deviation-bounded exploration of the budget answer: every budget class of every enumerated program",
+    "For every succeeding program of four grammars x 5 flag sets the only budget-dependent environment answer ('is cost > max?') is explored completely: every budget 1..=C+2 for programs up to the sweep cap, and for costlier programs every threshold extracted from the logged comparisons (hook H2) +-1, plus 2^32, 2^63 and u64::MAX-k. Oracles: soundness, identical successes, upward closure, exact 'cost exceeded' below, tightness (except grandfathered guards). The threshold extraction is validated against the full sweep on every cheap program.",
+    "Differential / algebraic oracle on the real interpreter (no separate model). 'May enter a grandfathered guard' is over-approximated syntactically (NEW_COST_MODEL and a softfork atom anywhere), which only skips the tightness clause.")
